@@ -329,6 +329,23 @@ def generate(sidecar, repo, mode):
             gen_impl_open(g, repo, s)
         elif s.kind == 'endimpl':
             g.emit('}', kind='impl')
+        elif s.kind == 'include':
+            # shared prelude text: `=== include <file under contracts/>`
+            inc = os.path.join(os.path.dirname(sidecar), s.args[0])
+            body = open(inc).read()
+            for l in body.rstrip('\n').split('\n'):
+                g.emit(l, kind='text')
+                st = l.strip()
+                if mode == 'verus' and st and not st.startswith('//') and re.match(r'^(requires|ensures|invariant|decreases)\b', st):
+                    g.clauses += 1
+        elif s.kind == 'gen':
+            # text produced by a generator under /verif/spec (e.g. the ISA oracle): `=== gen <module> <function>`
+            import importlib, sys
+            sp = os.path.join(os.path.dirname(os.path.dirname(os.path.abspath(__file__))), 'spec')
+            if sp not in sys.path:
+                sys.path.insert(0, sp)
+            mod = importlib.import_module(s.args[0])
+            g.emit(getattr(mod, s.args[1])(), kind='text')
         elif s.kind == 'end':
             break
         else:
